@@ -62,7 +62,16 @@ const ALLV: &[(&str, M2Version, u32)] = &[
     ("rev263", M2Version::TBC, 263),
     ("rev265", M2Version::WotLK, 265),
     ("rev271", M2Version::WotLK, 271),
+    // the versions behind MoP: M2Model::write emits MD20 with these header numbers and both converters take them as targets
+    ("WoD", M2Version::WoD, 275),
+    ("Legion", M2Version::Legion, 276),
+    ("BfA", M2Version::BfA, 280),
+    ("Shadowlands", M2Version::Shadowlands, 290),
+    ("Dragonflight", M2Version::Dragonflight, 300),
+    ("TheWarWithin", M2Version::TheWarWithin, 310),
 ];
+/// index of the first post-MoP row of ALLV
+const POST_MOP: usize = 12;
 
 /// Structural trigger predicates. A model case carries at most one; `Clean` carries none.
 #[derive(Clone, Copy, PartialEq, Eq, Debug)]
@@ -87,6 +96,9 @@ enum Risk {
     /// a track-bearing section without any key-frame data whose track headers carry a non-default
     /// interpolation type / global sequence
     StaticTrackHeaders,
+    /// an MD20 file with a header version above 272 (WoD .. TheWarWithin as written by M2Model::write) whose data area behind
+    /// the header is shorter than 8 bytes (an all but empty model); assigned from the written file, not by the schedule
+    PostMoP,
 }
 
 impl Risk {
@@ -102,6 +114,7 @@ impl Risk {
             Risk::FlagCombiners => "flag-texture-combiners",
             Risk::FlagBlendOverride => "flag-blend-override",
             Risk::StaticTrackHeaders => "static-track-headers",
+            Risk::PostMoP => "md20-version-above-272-data-shorter-than-8-bytes",
         }
     }
 }
@@ -1247,12 +1260,18 @@ fn project(m: &M2Model, cx: Ctx) -> Proj {
             .enumerate()
             .map(|(i, e)| {
                 let l = &rd.particle_animation_data;
+                // the optional tail of the record (fallback model, file data ids, encryption, multi-texture parameters, initial state ...)
+                // exists per record class: up to 272 / Legion family (273-279) / BfA and later; across classes it is not common content
+                let pe_class = |v: u32| if v <= 272 { 0 } else if v < 280 { 1 } else { 2 };
+                let opt = pe_class(cx.v) == pe_class(cx.o);
                 let mut s = format!(
-                    "id={} flags={:08x} pos={} bone={} tex={} mfn={}/{} parent={} geo={} fb={:?} blend={} et={} pt={} hot={} tfd={:?} tiles={}/{} enc={:?} mt={:?}/{:?}",
+                    "id={} flags={:08x} pos={} bone={} tex={} mfn={}/{} parent={} geo={} blend={} et={} pt={} hot={} tiles={}/{}",
                     e.id, e.flags.bits(), v3(&e.position), e.bone_index, e.texture_index, e.model_filename.count, 0, e.parent_emitter, e.geometry_model_unknown,
-                    e.fallback_model_filename.map(|a| a.count), e.blending_type, e.emitter_type as u8, e.particle_type, e.head_or_tail,
-                    e.texture_file_data_ids.map(|a| a.count), e.texture_tile_coordinates.count, 0, e.enable_encryption, e.multi_texture_param0, e.multi_texture_param1
+                    e.blending_type, e.emitter_type as u8, e.particle_type, e.head_or_tail, e.texture_tile_coordinates.count, 0
                 );
+                if opt {
+                    let _ = write!(s, " fb={:?} tfd={:?} enc={:?} mt={:?}/{:?}", e.fallback_model_filename.map(|a| a.count), e.texture_file_data_ids.map(|a| a.count), e.enable_encryption, e.multi_texture_param0, e.multi_texture_param1);
+                }
                 let fl = [
                     e.lifetime, e.emission_rate, e.emission_area_length, e.emission_area_width, e.emission_velocity, e.min_lifetime, e.max_lifetime,
                     e.min_emission_rate, e.max_emission_rate, e.min_emission_area_length, e.max_emission_area_length, e.min_emission_area_width,
@@ -1279,7 +1298,9 @@ fn project(m: &M2Model, cx: Ctx) -> Proj {
                     blk(&e.intensity_animation, find_kf!(l, emitter_index, i, ParticleTrackType::Intensity)),
                     blk(&e.z_source_animation, find_kf!(l, emitter_index, i, ParticleTrackType::ZSource))
                 );
+                if opt {
                 let _ = write!(s, " pis={:?} pisv={:?} pct={:?} phys={:?}", e.particle_initial_state, e.particle_initial_state_variation.map(fb), e.particle_convergence_time.map(fb), e.physics_parameters.map(|p| p.iter().map(|x| fb(*x)).collect::<Vec<_>>()));
+                }
                 s
             })
             .collect(),
@@ -1864,6 +1885,210 @@ fn parse_model(b: &[u8]) -> Result<Result<M2Model, String>, vh_common::PanicInfo
     trap(|| M2Model::parse(&mut Cursor::new(b.to_vec())).map_err(|e| format!("{e}")))
 }
 
+// ------------------------------------------------------------------ other ways in and out (files, sinks that hold data) ----
+
+static SCRATCH: std::sync::OnceLock<std::path::PathBuf> = std::sync::OnceLock::new();
+
+/// A path inside the worker's scratch directory. Every other call leaves a longer file there first, so that the
+/// save helper has to replace content (a file reused for an object that became shorter).
+fn scratch_file(c: &Case, tag: &str, fresh: &[u8]) -> Option<std::path::PathBuf> {
+    let dir = SCRATCH.get()?;
+    let path = dir.join(format!("c13-{}-{tag}", std::process::id()));
+    let _ = std::fs::remove_file(&path);
+    if c.idx % 2 == 0 {
+        let mut prior = fresh.to_vec();
+        prior.extend(std::iter::repeat_n(0x5Au8, 1 + (c.idx % 7) as usize * 500));
+        if std::fs::write(&path, &prior).is_err() {
+            return None;
+        }
+    }
+    Some(path)
+}
+
+/// save(path) must leave exactly the bytes of the in-memory write in the file. Returns true when the file may be loaded.
+fn saved_file_equals(c: &mut Case, what: &str, lab: &str, path: &std::path::Path, saved: Result<Result<(), String>, vh_common::PanicInfo>, b1: &[u8], sig: &dyn Fn(String) -> String, ctx: &Value) -> bool {
+    match saved {
+        Err(p) => {
+            c.violate(sig(format!("file-save-panic|{what}|{lab}|{}", p.sig())), format!("{what}::save panicked: {}", p.msg), ctx.clone());
+            false
+        }
+        Ok(Err(e)) => {
+            c.violate(sig(format!("file-save-fails|{what}|{lab}")), format!("{what}::save fails for an object that writes in memory: {e}"), ctx.clone());
+            false
+        }
+        Ok(Ok(())) => match std::fs::read(path) {
+            Err(_) => false,
+            Ok(fb) => {
+                c.count("files_saved", 1);
+                c.count(&format!("files_saved|{what}"), 1);
+                if c.idx % 2 == 0 {
+                    c.count("files_saved_over_a_longer_file", 1);
+                }
+                if fb != b1 {
+                    c.violate(
+                        sig(format!("file-save-differs|{what}|{lab}")),
+                        format!("{what}::save left {} bytes in the file, write into memory gives {} (first difference at {}; the path held {} before)", fb.len(), b1.len(), first_diff(&fb, b1), if c.idx % 2 == 0 { "a longer file" } else { "nothing" }),
+                        ctx.clone(),
+                    );
+                    return false;
+                }
+                true
+            }
+        },
+    }
+}
+
+/// The same object into a stream that already holds data in front of the writer's position and / or from that position
+/// on (a container, a reused buffer): the stretch that starts where the writer started is the fresh write, whatever stood
+/// in front stays. One shape per case.
+fn sink_leg(c: &mut Case, what: &str, lab: &str, b1: &[u8], write: &dyn Fn(&mut Cursor<Vec<u8>>) -> Result<(), String>, ctx: &Value) {
+    let shape = (c.idx % 3) as usize;
+    let mut r = Rng::for_case(0x51AC, c.idx, 13);
+    let pre = if shape == 1 { 0 } else { 1 + r.usize(300) };
+    let post = if shape == 0 { 0 } else { 1 + r.usize(b1.len() + 64) };
+    let mut buf = vec![0xA5u8; pre];
+    if shape != 0 {
+        buf.extend(std::iter::repeat_n(0x5Au8, b1.len() + post));
+    }
+    let name = ["behind-a-prefix", "over-longer-content", "behind-a-prefix-over-longer-content"][shape];
+    // the trigger predicate of the signature: does the writer start at 0 or not
+    let trig = if pre > 0 { "start-position-nonzero" } else { "start-position-zero-over-longer-content" };
+    let res = trap(|| {
+        let mut cur = Cursor::new(buf);
+        cur.set_position(pre as u64);
+        write(&mut cur).map(|_| cur.into_inner())
+    });
+    c.count("sink_shapes_checked", 1);
+    c.count(&format!("sink_shapes_checked|{what}|{name}"), 1);
+    match res {
+        Err(p) => c.violate(format!("write-depends-on-sink|{what}|{lab}|panic|{}", p.sig()), format!("{what}::write panicked on a stream {name}: {}", p.msg), ctx.clone()),
+        Ok(Err(e)) => c.violate(format!("write-depends-on-sink|{what}|{lab}|{trig}"), format!("{what}::write fails on a stream {name}: {e}"), ctx.clone()),
+        Ok(Ok(out)) => {
+            let end = pre + b1.len();
+            let body_ok = out.len() >= end && out[pre..end] == b1[..];
+            let prefix_ok = out.len() >= pre && out[..pre].iter().all(|&x| x == 0xA5);
+            if !(body_ok && prefix_ok) {
+                let d = if out.len() >= end { first_diff(&out[pre..end], b1) } else { out.len().saturating_sub(pre) };
+                c.violate(
+                    format!("write-depends-on-sink|{what}|{lab}|{trig}"),
+                    format!("{what}::write into a stream holding {pre} bytes in front of the start position and {} bytes from there on: the {} bytes from the start position {} the fresh write (first difference at {d}), the bytes in front are {}", out.len().saturating_sub(pre).min(if shape == 0 { 0 } else { b1.len() + post }), b1.len(), if body_ok { "equal" } else { "differ from" }, if prefix_ok { "intact" } else { "overwritten" }),
+                    json!({"ctx": ctx, "prefix": pre, "fresh_len": b1.len(), "first_diff": d, "prefix_intact": prefix_ok}),
+                );
+            }
+        }
+    }
+}
+
+fn le16s(b: &[u8]) -> Vec<u16> {
+    b.chunks_exact(2).map(|x| u16::from_le_bytes([x[0], x[1]])).collect()
+}
+
+/// The accessors for the skin profiles embedded in a written model of version <= 260 (M2Model::parse_embedded_skin /
+/// parse_all_embedded_skins, which go through skin::parse_embedded_skin): a second reader over the same written bytes.
+/// Profile 0 must carry what the model's embedded skin 0 carries (vertex lookup, triangle indices, sub-mesh records, batches).
+fn embedded_skin_leg(c: &mut Case, m: &M2Model, p: &M2Model, b1: &[u8], v: u32, vlabel: &str, sigtag: &dyn Fn(String) -> String, ctx: &Value) {
+    let skins = &m.raw_data.embedded_skins;
+    if skins.is_empty() || v > 263 {
+        return;
+    }
+    if v > 260 {
+        // the accessor turns down header revisions 261-263 by design (its documentation speaks of "version <= 260")
+        c.count("embedded_skin_accessor_not_offered_for_revision", 1);
+        return;
+    }
+    let raw = &skins[0];
+    // signature features: the record family (32-byte sub-mesh records before 260, 48 from 260 on) and whether profile 0 has batches
+    let fam = if v < 260 { "Vanilla" } else { "TBC" };
+    let trig = if raw.batches.is_empty() { "no-batches" } else { "batches-present" };
+    let _ = vlabel;
+    let sub = if v < 260 { 32 } else { 48 };
+    let first = match trap(|| p.parse_embedded_skin(b1, 0).map_err(|e| format!("{e}"))) {
+        Err(pn) => {
+            c.violate(sigtag(format!("embedded-skin-access|panic|{fam}|{trig}|{}", pn.sig())), format!("M2Model::parse_embedded_skin panicked: {}", pn.msg), ctx.clone());
+            return;
+        }
+        Ok(Err(e)) => {
+            c.violate(sigtag(format!("embedded-skin-access|rejects-own-output|{fam}|{trig}")), format!("M2Model::parse_embedded_skin(written bytes, 0) fails on a model written with {} embedded skins: {e}", skins.len()), ctx.clone());
+            return;
+        }
+        Ok(Ok(s)) => s,
+    };
+    c.count("embedded_skin_profiles_read_back", 1);
+    let want_sub: Vec<String> = raw.submeshes.chunks_exact(sub).map(|r| if sub == 48 { format!("{} bi={} c={} sc={} r={}", hex(&r[..16]), hex(&r[16..18]), hex(&r[20..32]), hex(&r[32..44]), hex(&r[44..48])) } else { hex(&r[..16]) }).collect();
+    let u = |x: u16| hex(&x.to_le_bytes());
+    let ff = |a: &[f32; 3]| a.iter().map(|x| hex(&x.to_le_bytes())).collect::<String>();
+    let got_sub: Vec<String> = first
+        .submeshes()
+        .iter()
+        .map(|x| {
+            let head = format!("{}{}{}{}{}{}{}{}", u(x.id), u(x.level), u(x.vertex_start), u(x.vertex_count), u(x.triangle_start), u(x.triangle_count), u(x.bone_count), u(x.bone_start));
+            if sub == 48 { format!("{head} bi={} c={} sc={} r={}", u(x.bone_influence), ff(&x.center), ff(&x.sort_center), hex(&x.bounding_radius.to_le_bytes())) } else { head }
+        })
+        .collect();
+    let want_bat: Vec<String> = raw.batches.chunks_exact(24).map(|r| SkinBatch::parse(&mut Cursor::new(r.to_vec())).map(|b| proj_batch(&b)).unwrap_or_default()).collect();
+    let want: Proj = vec![
+        ("embedded-skin-indices", le16s(&raw.indices).iter().map(|x| x.to_string()).collect()),
+        ("embedded-skin-triangles", le16s(&raw.triangles).iter().map(|x| x.to_string()).collect()),
+        ("embedded-skin-submeshes", want_sub),
+        ("embedded-skin-batches", want_bat),
+    ];
+    let got: Proj = vec![
+        ("embedded-skin-indices", first.indices().iter().map(|x| x.to_string()).collect()),
+        ("embedded-skin-triangles", first.triangles().iter().map(|x| x.to_string()).collect()),
+        ("embedded-skin-submeshes", got_sub),
+        ("embedded-skin-batches", first.batches().iter().map(proj_batch).collect()),
+    ];
+    cmp_proj(c, &want, &got, &|s| sigtag(format!("embedded-skin-access|{s}|{fam}|{trig}")), "parse_embedded_skin(write(m), 0) vs embedded skin 0 of m", ctx);
+    match trap(|| p.parse_all_embedded_skins(b1).map_err(|e| format!("{e}"))) {
+        Err(pn) => c.violate(sigtag(format!("embedded-skin-access|panic|{fam}|{trig}|{}", pn.sig())), format!("M2Model::parse_all_embedded_skins panicked: {}", pn.msg), ctx.clone()),
+        Ok(Err(e)) => c.violate(sigtag(format!("embedded-skin-access|all-rejects-own-output|{fam}|{trig}")), format!("parse_all_embedded_skins fails although profile 0 reads: {e}"), ctx.clone()),
+        Ok(Ok(all)) => {
+            c.count("embedded_skin_sets_read_back", 1);
+            if all.len() != skins.len() {
+                c.violate(sigtag(format!("embedded-skin-access|profile-count|{fam}|{trig}")), format!("parse_all_embedded_skins returns {} profiles for a model written with {}", all.len(), skins.len()), ctx.clone());
+            } else if project_skin(&all[0], false) != project_skin(&first, false) {
+                c.violate(sigtag(format!("embedded-skin-access|all-differs-from-single|{fam}|{trig}")), "parse_all_embedded_skins()[0] differs from parse_embedded_skin(0)", ctx.clone());
+            }
+        }
+    }
+    // the raw-bytes helper has no stated content; what it does with the writer's output is tallied only
+    match trap(|| wow_m2::embedded_skin::extract_embedded_skin_bytes(b1, 0).map(|b| b.len())) {
+        Ok(Ok(_)) => c.count("extract_embedded_skin_bytes|ok", 1),
+        Ok(Err(_)) => c.count("extract_embedded_skin_bytes|err", 1),
+        Err(_) => c.count("extract_embedded_skin_bytes|panic", 1),
+    }
+}
+
+/// M2Model::save / load / load_legacy: the file holds the bytes of the in-memory write, and loading it gives what parsing those bytes gives.
+fn model_file_leg(c: &mut Case, m: &M2Model, b1: &[u8], pp: &Proj, v: u32, vlabel: &str, sigtag: &dyn Fn(String) -> String, ctx: &Value) {
+    let Some(path) = scratch_file(c, "model.m2", b1) else { return };
+    let saved = trap(|| m.save(&path).map_err(|e| format!("{e}")));
+    if saved_file_equals(c, "M2Model", vlabel, &path, saved, b1, sigtag, ctx) {
+        match trap(|| M2Model::load(&path).map_err(|e| format!("{e}"))) {
+            Ok(Ok(M2Format::Legacy(p2))) => {
+                c.count("files_loaded", 1);
+                if &project(&p2, Ctx::full(v)) != pp {
+                    c.violate(sigtag(format!("file-load-differs|M2Model::load|{vlabel}")), "M2Model::load of the saved file yields other content than M2Model::parse of the same bytes", ctx.clone());
+                }
+            }
+            Ok(Ok(M2Format::Chunked(_))) => c.violate(sigtag(format!("parse_m2-wrong-format|{vlabel}")), "M2Model::load classified a saved MD20 file as chunked", ctx.clone()),
+            Ok(Err(e)) => c.violate(sigtag(format!("file-load-fails|M2Model::load|{vlabel}")), format!("M2Model::load fails on a file whose bytes parse in memory: {e}"), ctx.clone()),
+            Err(pn) => c.violate(sigtag(format!("parse-panic|{vlabel}|{}", pn.sig())), format!("M2Model::load panicked: {}", pn.msg), ctx.clone()),
+        }
+        match trap(|| M2Model::load_legacy(&path).map_err(|e| format!("{e}"))) {
+            Ok(Ok(p2)) => {
+                c.count("files_loaded", 1);
+                if &project(&p2, Ctx::full(v)) != pp {
+                    c.violate(sigtag(format!("file-load-differs|M2Model::load_legacy|{vlabel}")), "M2Model::load_legacy of the saved file yields other content than M2Model::parse of the same bytes", ctx.clone());
+                }
+            }
+            Ok(Err(e)) => c.violate(sigtag(format!("file-load-fails|M2Model::load_legacy|{vlabel}")), format!("M2Model::load_legacy fails on a file whose bytes parse in memory: {e}"), ctx.clone()),
+            Err(pn) => c.violate(sigtag(format!("parse-panic|{vlabel}|{}", pn.sig())), format!("M2Model::load_legacy panicked: {}", pn.msg), ctx.clone()),
+        }
+    }
+    let _ = std::fs::remove_file(&path);
+}
+
 fn pattern_for(r: &mut Rng, k: u64) -> [u8; NSECT] {
     let mut p = [0u8; NSECT];
     match k {
@@ -1994,6 +2219,7 @@ fn minimal_model(vi: usize, risk: Risk) -> Option<M2Model> {
             }
             m.header.flags = M2ModelFlags::from_bits_retain(0x0800_0000)
         }
+        Risk::PostMoP => {}
         Risk::StaticTrackHeaders => {
             let mut b = M2Bone::parse(&mut zeros(), v).ok()?;
             reset_track(&mut b.translation);
@@ -2007,14 +2233,23 @@ fn minimal_model(vi: usize, risk: Risk) -> Option<M2Model> {
     Some(m)
 }
 
+/// trigger predicate of `Risk::PostMoP`, read off the written file
+fn post_mop_short(b: &[u8]) -> bool {
+    matches!(decode_header(b), Ok((v, hsize, _, _)) if v > 272 && b.len() < hsize + 8)
+}
+
 fn check_model(c: &mut Case, m: &M2Model, vi: usize, risk: Risk, ctx: Value) {
     let m = m.clone();
     let (vlabel, mver, v) = ALLV[vi];
+    let risk = match (v > 272, write_model(&m)) {
+        (true, W::Bytes(b)) if post_mop_short(&b) => Risk::PostMoP,
+        _ => risk,
+    };
     // a case with a risk feature reports under one signature per (risk, clause family): the feature, not the collateral damage, is the defect
     let sigtag = |s: String| -> String {
         // the submesh re-encoding defect of convert() across the 260 boundary is independent of every risk feature and
         // precisely identified by its own signature, so it keeps that signature everywhere
-        if risk == Risk::Clean || s.starts_with("convert-content|embedded_skin_submeshes|") || std::env::var("C13_RAW_SIGS").is_ok() { s } else { format!("risk={}", risk.tag()) }
+        if risk == Risk::Clean || s.starts_with("convert-content|embedded_skin_submeshes|") || s.starts_with("embedded-skin-access|") || std::env::var("C13_RAW_SIGS").is_ok() { s } else { format!("risk={}", risk.tag()) }
     };
     c.count("objects_models", 1);
     c.count(&format!("models|{vlabel}"), 1);
@@ -2081,6 +2316,14 @@ fn check_model(c: &mut Case, m: &M2Model, vi: usize, risk: Risk, ctx: Value) {
                     Ok(Err(e)) => c.violate(sigtag(format!("short-write-rejected|{vlabel}")), format!("M2Model::write into a sink that accepts short writes fails: {e}"), ctx.clone()),
                     Err(pn) => c.violate(sigtag(format!("write-panic|{vlabel}|{}", pn.sig())), format!("M2Model::write (short writes) panicked: {}", pn.msg), ctx.clone()),
                 }
+            }
+            // the file helpers (save / load / load_legacy), the accessors for embedded skin profiles, and a sink that already holds data
+            if c.idx % 3 == 1 || b1.len() < 1500 {
+                model_file_leg(c, &m, &b1, &pp, v, vlabel, &sigtag, &ctx);
+            }
+            embedded_skin_leg(c, &m, &p, &b1, v, vlabel, &sigtag, &ctx);
+            if c.idx % 2 == 0 || b1.len() < 1500 {
+                sink_leg(c, "M2Model", vlabel, &b1, &|cur| m.write(cur).map_err(|e| format!("{e}")), &ctx);
             }
             // (b) second write
             match write_model(&p) {
@@ -2150,9 +2393,29 @@ fn check_model(c: &mut Case, m: &M2Model, vi: usize, risk: Risk, ctx: Value) {
     // a header revision belongs to the family of its canonical version: signatures name the family (the defect does not depend on
     // the revision number), converting to its own family is the same-version clause, and it may keep its revision number
     let family = if vi < VERSIONS.len() { vlabel } else { VERSIONS.iter().find(|x| x.1 == mver).map(|x| x.0).unwrap_or(vlabel) };
-    for (ti, &(tlabel, tver, tv)) in VERSIONS.iter().enumerate() {
+    // targets: the five classic versions; a post-MoP model also goes to its own version and to one other post-MoP version,
+    // every second clean classic model without particle emitters to one post-MoP version
+    let mut targets: Vec<(usize, &str, M2Version, u32)> = VERSIONS.iter().enumerate().map(|(ti, x)| (ti, x.0, x.1, x.2)).collect();
+    let npost = ALLV.len() - POST_MOP;
+    if vi >= POST_MOP {
+        targets.push((vi, ALLV[vi].0, ALLV[vi].1, ALLV[vi].2));
+        let o = POST_MOP + (vi - POST_MOP + 1 + (c.idx as usize / 7) % (npost - 1)) % npost;
+        targets.push((o, ALLV[o].0, ALLV[o].1, ALLV[o].2));
+    } else if risk == Risk::Clean && c.idx % 2 == 0 && m.particle_emitters.is_empty() {
+        // (models without particle emitters only: the emitter record layout above 272 is not in the walker's tables)
+        let o = POST_MOP + (c.idx as usize / 2) % npost;
+        targets.push((o, ALLV[o].0, ALLV[o].1, ALLV[o].2));
+    }
+    let sigtag_outer = &sigtag;
+    for (ti, tlabel, tver, tv) in targets {
         let pair = format!("{family}->{tlabel}");
-        let same_version = ti == vi || (vi >= VERSIONS.len() && tver == mver);
+        // a converted file that meets the trigger predicate of Risk::PostMoP reports under it, whatever the source was
+        let short_target = std::cell::Cell::new(false);
+        let sigtag = |s: String| -> String { if short_target.get() && std::env::var("C13_RAW_SIGS").is_err() { format!("risk={}", Risk::PostMoP.tag()) } else { sigtag_outer(s) } };
+        if tv > 272 {
+            c.count("conversions_to_post_mop_versions", 1);
+        }
+        let same_version = ti == vi || (vi >= VERSIONS.len() && vi < POST_MOP && tver == mver);
         // both entry points for the same-version clause, alternating ones for the cross-version pairs
         let modes: &[bool] = if same_version { &[true, false] } else if (ti + vi) % 2 == 0 { &[true] } else { &[false] };
         for &use_converter in modes {
@@ -2170,7 +2433,13 @@ fn check_model(c: &mut Case, m: &M2Model, vi: usize, risk: Risk, ctx: Value) {
             Ok(Ok(x)) => x,
         };
         c.count("conversions", 1);
-        if cm.header.version != tv && !(same_version && cm.header.version == v) {
+        // the requested version is reached when the header number is the target's own or one the library itself assigns to the target
+        // (e.g. 275 for Legion: M2Version::from_header_version maps 273..=279 to Legion)
+        let in_target_family = cm.header.version != tv && M2Version::from_header_version(cm.header.version) == Some(tver);
+        if in_target_family {
+            c.count("conversions_ending_on_another_number_of_the_target_version", 1);
+        }
+        if cm.header.version != tv && !in_target_family && !(same_version && cm.header.version == v) {
             c.violate(sigtag(format!("convert-version-field|{pair}")), format!("converted model carries version {} instead of {}", cm.header.version, tv), ctx.clone());
             continue;
         }
@@ -2204,6 +2473,7 @@ fn check_model(c: &mut Case, m: &M2Model, vi: usize, risk: Risk, ctx: Value) {
                 continue;
             }
         };
+        short_target.set(post_mop_short(&bc));
         walk_m2(c, &bc, &cm, &pair, &|s| sigtag(format!("convert-{s}")), &ctx);
         match parse_model(&bc) {
             Err(p) => c.violate(sigtag(format!("convert-parse-panic|{pair}|{}", p.sig())), format!("parse of the converted model panicked: {}", p.msg), ctx.clone()),
@@ -2223,6 +2493,12 @@ fn check_model(c: &mut Case, m: &M2Model, vi: usize, risk: Risk, ctx: Value) {
 fn main() {
     let mut run = Run::new();
     let thorough = run.args.thorough();
+    if !run.args.scratch.is_empty() {
+        let dir = std::path::PathBuf::from(&run.args.scratch);
+        if std::fs::create_dir_all(&dir).is_ok() {
+            let _ = SCRATCH.set(dir);
+        }
+    }
     let n_models: u64 = if thorough { 300_000 } else { 10_000 };
     let n_skins: u64 = if thorough { 48_000 } else { 2_400 };
     let n_anims: u64 = if thorough { 24_000 } else { 1_200 };
@@ -2331,7 +2607,7 @@ fn main() {
             continue;
         }
         let mut rng = run.rng(i, 0);
-        let nrev = (ALLV.len() - VERSIONS.len()) as u64;
+        let nrev = (POST_MOP - VERSIONS.len()) as u64;
         let vi = VERSIONS.len() + (k % nrev) as usize;
         let risk = if k / nrev % 3 == 0 { Risk::Clean } else { RISK_SCHEDULE[((k / nrev) % RISK_SCHEDULE.len() as u64) as usize] };
         let pattern = if risk == Risk::Clean { pattern_for(&mut rng, k / nrev) } else { pattern_for(&mut rng, 3) };
@@ -2342,6 +2618,32 @@ fn main() {
         run.case(i, &class, json!({"kind": "m2", "version": ALLV[vi].0, "header_version": ALLV[vi].2, "risk": risk.tag(), "share": share.tag(), "pattern": pat_s, "sections": SECT_NAMES}), |c| {
             model_case(c, &mut rng, rs, share, vi, risk, &pattern, thorough);
         });
+    }
+    // ---- the versions behind MoP as MD20 (appended behind everything else: their own index range). Every such case carries the
+    // clean space except for all but empty models (see Risk::PostMoP). No particle emitters: their record layout above 272 is not in the walker's tables.
+    {
+        let mut idx2 = 2_000_000u64;
+        let n_post: u64 = if thorough { 12_000 } else { 600 };
+        let npost = (ALLV.len() - POST_MOP) as u64;
+        for k in 0..n_post {
+            let i = idx2;
+            idx2 += 1;
+            if !run.want(i) {
+                continue;
+            }
+            let mut rng = run.rng(i, 0);
+            let vi = POST_MOP + (k % npost) as usize;
+            let mut pattern = pattern_for(&mut rng, k / npost);
+            pattern[20] = 0;
+            let pat_s: String = pattern.iter().map(|d| d.to_string()).collect();
+            let mut rs = run.rng(i, 1);
+            let share = share_for(&mut rs);
+            let class = format!("m2|{}|clean|{}|share={}", ALLV[vi].0, pat_s, share.tag());
+            run.case(i, &class, json!({"kind": "m2", "version": ALLV[vi].0, "header_version": ALLV[vi].2, "risk": "clean", "share": share.tag(), "pattern": pat_s, "sections": SECT_NAMES}), |c| {
+                c.count("models_post_mop_versions", 1);
+                model_case(c, &mut rng, rs, share, vi, Risk::Clean, &pattern, thorough);
+            });
+        }
     }
     // skeletons around the limit of the byte-sized vertex bone index: the highest addressable bones are ordinary bones
     for &nbones in &[255usize, 256, 257, 300] {
@@ -2534,6 +2836,70 @@ fn skin_roundtrip(c: &mut Case, f: &SkinFile, lab: &str, autodetect: bool, sig: 
             }
         }
     }
+    // ---- the file helpers: SkinFile::save (-> SkinG::save), then the typed load (SkinG::load) and - where auto-detection is part of
+    // the clean space - SkinFile::load / load_skin; each must give what the in-memory parse of the same bytes gives
+    if c.idx % 2 == 1 || b1.len() < 600 {
+        if let Some(path) = scratch_file(c, "mesh.skin", &b1) {
+            let saved = if c.idx % 4 < 2 {
+                trap(|| f.save(&path).map_err(|e| format!("{e}")))
+            } else {
+                trap(|| match f {
+                    SkinFile::New(s) => s.save(&path).map_err(|e| format!("{e}")),
+                    SkinFile::Old(s) => s.save(&path).map_err(|e| format!("{e}")),
+                })
+            };
+            if saved_file_equals(c, "SkinFile", lab, &path, saved, &b1, sig, ctx) {
+                let mem = |b: &[u8], auto: bool| -> Option<Proj> {
+                    trap(|| {
+                        let mut cur = Cursor::new(b.to_vec());
+                        if auto {
+                            SkinFile::parse(&mut cur).ok()
+                        } else {
+                            match f {
+                                SkinFile::New(_) => Skin::parse(&mut cur).map(SkinFile::New).ok(),
+                                SkinFile::Old(_) => OldSkin::parse(&mut cur).map(SkinFile::Old).ok(),
+                            }
+                        }
+                    })
+                    .ok()
+                    .flatten()
+                    .map(|s| project_skin(&s, true))
+                };
+                let mut loads: Vec<(&str, Result<Result<SkinFile, String>, vh_common::PanicInfo>, bool)> = vec![(
+                    "SkinG::load",
+                    trap(|| match f {
+                        SkinFile::New(_) => Skin::load(&path).map(SkinFile::New).map_err(|e| format!("{e}")),
+                        SkinFile::Old(_) => OldSkin::load(&path).map(SkinFile::Old).map_err(|e| format!("{e}")),
+                    }),
+                    false,
+                )];
+                if autodetect {
+                    loads.push(("SkinFile::load", trap(|| SkinFile::load(&path).map_err(|e| format!("{e}"))), true));
+                    loads.push(("load_skin", trap(|| wow_m2::load_skin(&path).map_err(|e| format!("{e}"))), true));
+                }
+                for (name, got, auto) in loads {
+                    let want = mem(&b1, auto);
+                    match got {
+                        Err(p) => c.violate(sig(format!("skin-parse-panic|{lab}|{}", p.sig())), format!("{name} panicked: {}", p.msg), ctx.clone()),
+                        Ok(got) => {
+                            c.count("files_loaded", 1);
+                            c.count(&format!("files_loaded|{name}"), 1);
+                            let gp = got.as_ref().ok().map(|s| project_skin(s, true));
+                            if gp != want {
+                                c.violate(
+                                    sig(format!("file-load-differs|{name}|{lab}")),
+                                    format!("{name} of the saved file ({}) and the in-memory parse of the same bytes ({}) disagree", match &got { Ok(_) => "Ok".to_string(), Err(e) => format!("Err: {e}") }, if want.is_some() { "Ok" } else { "Err" }),
+                                    ctx.clone(),
+                                );
+                            }
+                        }
+                    }
+                }
+            }
+            let _ = std::fs::remove_file(&path);
+        }
+    }
+    sink_leg(c, "SkinFile", lab, &b1, &|cur| f.write(cur).map_err(|e| format!("{e}")), ctx);
     Some(b1)
 }
 
@@ -2821,10 +3187,12 @@ fn anim_roundtrip(c: &mut Case, a: &AnimFile, lab: &str, sig: &dyn Fn(String) ->
     };
     c.count("bytes_written", b1.len() as u64);
     walk_anim(c, &b1, a, lab, sig, ctx);
+    let mut auto: Option<AnimFile> = None;
     match trap(|| AnimFile::parse(&mut Cursor::new(b1.clone())).map_err(|e| format!("{e}"))) {
         Err(p) => c.violate(sig(format!("anim-parse-panic|{lab}|{}", p.sig())), format!("AnimFile::parse panicked: {}", p.msg), ctx.clone()),
         Ok(Err(e)) => c.violate(sig(format!("anim-parse-rejects-own-output|{lab}")), format!("AnimFile::parse rejected the writer's output: {e}"), ctx.clone()),
         Ok(Ok(p)) => {
+            auto = Some(p.clone());
             c.count("roundtrips", 1);
             cmp_proj(c, &project_anim(a), &project_anim(&p), &|s| sig(format!("anim-roundtrip-content|{s}|{lab}")), "anim parse(write(a)) vs a", ctx);
             match write_anim(&p) {
@@ -2838,6 +3206,90 @@ fn anim_roundtrip(c: &mut Case, a: &AnimFile, lab: &str, sig: &dyn Fn(String) ->
             }
         }
     }
+    if let Some(auto) = &auto {
+        let pa = project_anim(auto);
+        // ---- the entry points that take the format from the caller: the written file read with its known format is the
+        // auto-detected parse
+        let explicit: [(&str, Result<Result<AnimFile, String>, vh_common::PanicInfo>); 2] = [
+            ("AnimFile::parse_with_format", trap(|| AnimFile::parse_with_format(&mut Cursor::new(b1.clone()), a.format).map_err(|e| format!("{e}")))),
+            ("AnimParser::parse_with_format", trap(|| wow_m2::anim::AnimParser::parse_with_format(&mut Cursor::new(b1.clone()), a.format).map_err(|e| format!("{e}")))),
+        ];
+        for (name, got) in explicit {
+            c.count("explicit_format_parses", 1);
+            match got {
+                Err(p) => c.violate(sig(format!("anim-parse-panic|{lab}|{}", p.sig())), format!("{name} panicked: {}", p.msg), ctx.clone()),
+                Ok(Err(e)) => c.violate(sig(format!("anim-entry-points-disagree|{name}|{lab}")), format!("{name} with the file's own format fails on bytes that AnimFile::parse reads: {e}"), ctx.clone()),
+                Ok(Ok(x)) => {
+                    if project_anim(&x) != pa {
+                        c.violate(sig(format!("anim-entry-points-disagree|{name}|{lab}")), format!("{name} with the file's own format yields other content than AnimFile::parse"), ctx.clone());
+                    }
+                }
+            }
+        }
+        // parse_validated = parse + validate: same content, and a verdict that is validate()'s verdict on the parsed object
+        c.count("validated_parses", 1);
+        let verdict = trap(|| auto.validate().is_ok()).unwrap_or(false);
+        match trap(|| AnimFile::parse_validated(&mut Cursor::new(b1.clone())).map_err(|e| format!("{e}"))) {
+            Err(p) => c.violate(sig(format!("anim-parse-panic|{lab}|{}", p.sig())), format!("AnimFile::parse_validated panicked: {}", p.msg), ctx.clone()),
+            Ok(Ok(x)) => {
+                c.count("validated_parses_accepted", 1);
+                if !verdict || project_anim(&x) != pa {
+                    c.violate(sig(format!("anim-entry-points-disagree|AnimFile::parse_validated|{lab}")), format!("parse_validated accepts the file (validate() on the parsed object: {}) with {} content", if verdict { "Ok" } else { "Err" }, if project_anim(&x) != pa { "other" } else { "the same" }), ctx.clone());
+                }
+            }
+            Ok(Err(e)) => {
+                c.count("validated_parses_turned_down", 1);
+                if verdict {
+                    c.violate(sig(format!("anim-entry-points-disagree|AnimFile::parse_validated|{lab}")), format!("parse_validated fails ({e}) although AnimFile::parse reads the bytes and validate() accepts the result"), ctx.clone());
+                }
+            }
+        }
+        // ---- the file helpers
+        if let Some(path) = scratch_file(c, "bones.anim", &b1) {
+            let saved = trap(|| a.save(&path).map_err(|e| format!("{e}")));
+            if saved_file_equals(c, "AnimFile", lab, &path, saved, &b1, sig, ctx) {
+                let hint = if a.format == AnimFormat::Modern { [M2Version::Legion, M2Version::BfA, M2Version::TheWarWithin][(c.idx % 3) as usize] } else { [M2Version::Vanilla, M2Version::WotLK, M2Version::MoP][(c.idx % 3) as usize] };
+                let loads: [(&str, Result<Result<AnimFile, String>, vh_common::PanicInfo>); 2] =
+                    [("AnimFile::load", trap(|| AnimFile::load(&path).map_err(|e| format!("{e}")))), ("AnimFile::load_with_version", trap(|| AnimFile::load_with_version(&path, hint).map_err(|e| format!("{e}"))))];
+                for (name, got) in loads {
+                    c.count("files_loaded", 1);
+                    c.count(&format!("files_loaded|{name}"), 1);
+                    match got {
+                        Err(p) => c.violate(sig(format!("anim-parse-panic|{lab}|{}", p.sig())), format!("{name} panicked: {}", p.msg), ctx.clone()),
+                        Ok(Err(e)) => c.violate(sig(format!("file-load-fails|{name}|{lab}")), format!("{name} fails on a file whose bytes parse in memory: {e}"), ctx.clone()),
+                        Ok(Ok(x)) => {
+                            if project_anim(&x) != pa {
+                                c.violate(sig(format!("file-load-differs|{name}|{lab}")), format!("{name} of the saved file yields other content than AnimFile::parse of the same bytes"), ctx.clone());
+                            }
+                        }
+                    }
+                }
+            }
+            let _ = std::fs::remove_file(&path);
+        }
+    }
+    // ---- optimize_memory: the optimised object is an object like any other - write -> parse gives it back
+    {
+        let mut o = a.clone();
+        if trap(|| o.optimize_memory()).is_err() {
+            c.violate(sig(format!("anim-optimize-panic|{lab}")), "AnimFile::optimize_memory panicked", ctx.clone());
+        } else {
+            let dropped: usize = a.sections.iter().map(|s| s.bone_animations.len()).sum::<usize>() - o.sections.iter().map(|s| s.bone_animations.len()).sum::<usize>();
+            c.count("optimized_objects", 1);
+            c.count("optimized_objects_bone_entries_dropped", dropped as u64);
+            if let W::Bytes(bo) = write_anim(&o) {
+                match trap(|| AnimFile::parse(&mut Cursor::new(bo.clone())).map_err(|e| format!("{e}"))) {
+                    Ok(Ok(po)) => {
+                        c.count("optimized_roundtrips", 1);
+                        cmp_proj(c, &project_anim(&o), &project_anim(&po), &|s| sig(format!("anim-optimized-roundtrip-content|{s}|{lab}")), "anim parse(write(optimize_memory(a))) vs optimize_memory(a)", ctx);
+                    }
+                    Ok(Err(e)) => c.violate(sig(format!("anim-optimized-parse-rejects-own-output|{lab}")), format!("AnimFile::parse rejected the written optimised object: {e}"), ctx.clone()),
+                    Err(p) => c.violate(sig(format!("anim-parse-panic|{lab}|{}", p.sig())), format!("AnimFile::parse panicked on the written optimised object: {}", p.msg), ctx.clone()),
+                }
+            }
+        }
+    }
+    sink_leg(c, "AnimFile", lab, &b1, &|cur| a.write(cur).map_err(|e| format!("{e}")), ctx);
     Some(b1)
 }
 
